@@ -170,6 +170,27 @@ def run(m):
     return {"violated": out != ["[]()", "[]()"], "observed": out, "witness": "nil-binding-shadows"}
 '''
 
+# a macro body runs in an isolated copy of the context whose globals are [the bound arguments, global data] in
+# that order: a parameter, `args` or `kwargs` is never answered by render-time data of the same name
+from contracts.C15 import _copy_isolated  # noqa: E402
+
+for _origin in ("root", "partial"):
+    contract("liquid.context:RenderContext.copy", prop="C27", name=f"copy[macro arguments shadow global data, caller={_origin}]")(lambda c, o=_origin: _copy_isolated(c, o, lambda: REPLAY_MACRO_GLOBALS))
+
+REPLAY_MACRO_GLOBALS = r"""
+def run(m):
+    import asyncio
+    from liquid import Environment
+    env = Environment(extra=True)
+    src = "{% macro f a, b: 'dflt', c %}[a={{ a }} b={{ b }} c={{ c }} args={{ args | join: ',' }} kw={% for p in kwargs %}{{ p[0] }}:{{ p[1] }}{% endfor %}]{% endmacro %}{% call f 1 %}{% call f 1, 2, 3, 4, z: 5 %}"
+    want = "[a=1 b=dflt c= args= kw=][a=1 b=2 c=3 args=4 kw=z:5]"
+    data = {"a": "GA", "b": "GB", "c": "GC", "args": ["GARGS"], "kwargs": {"g": "GKW"}}
+    t = env.from_string(src)
+    out = [t.render(**data), asyncio.run(t.render_async(**data)), env.from_string(src, globals=data).render()]
+    bad = [o for o in out if o != want]
+    return {"failing": bool(bad), "violated": bool(bad), "witness": "render-data-shadows-a-macro-argument", "call": src, "result": bad[0] if bad else "ok", "expected": want}
+"""
+
 for _sfx in ("", "_async"):
     call_node_contract("C27", _sfx, lambda: REPLAY)
 
